@@ -36,7 +36,26 @@ L_MENU = [
 ]
 
 
+class StateObj(object):
+    _pool = {}
+
+    def __init__(self, i):
+        self.i = i
+
+    def __repr__(self):
+        return 'StateObj<%d>' % self.i
+
+
+def _obj(i):
+    # one object per index within a check (identity-hashed states must be the SAME object wherever
+    # the case mentions state i)
+    if i not in StateObj._pool:
+        StateObj._pool[i] = StateObj(i)
+    return StateObj._pool[i]
+
+
 NAMINGS = {
+    'objects': _obj,
     'ints': lambda i: i,
     'strings': lambda i: {0: 'a', 1: 'B', 2: 'zz', 3: '', 9: 'nine'}[i],
     'mixed': lambda i: {0: 0, 1: 'a', 2: (1, 2), 3: frozenset([7]), 9: None if False else ('no', 'state')}[i],
@@ -189,6 +208,8 @@ def check(S, S0, R, L, acc, naming='ints'):
                 any(C._next[s] is K._next[t] for s in nodes for t in nodes) or C.S0 is K.S0:
             bad('clone-shares-sets')
         else:
+            if [C.labels(s) for s in sorted(nodes, key=repr)] != [K.labels(s) for s in sorted(nodes, key=repr)]:
+                bad('clone-labels-differ')
             for s in nodes:
                 C.labels(s).add('zz')
             C.S0.add(nm(9))
@@ -209,6 +230,14 @@ def check(S, S0, R, L, acc, naming='ints'):
             for extra in ((), (nm(9),)):
                 Vs = set(V) | set(extra)
                 Vcopy = set(Vs)
+                if not extra and len(V) == len(nl):
+                    # the states view itself and a frozenset are set-like arguments too
+                    for form, Varg in (('states-view', K.states()), ('frozenset', frozenset(Vs)),
+                                       ('dict-keys', dict((x, 1) for x in Vs).keys())):
+                        rv = call(K.get_substructure, Varg)
+                        if rv[0] != 'ok' or set(rv[1].states()) != set(V):
+                            bad('substructure-%s-argument' % form, sorted(V, key=repr), rv[1:] if rv[0] != 'ok'
+                                else sorted(rv[1].states(), key=repr))
                 expE = set((s, d) for (s, d) in R if s in V and d in V)
                 tot = set(V) <= set(s for (s, d) in expE)
                 r = call(K.get_substructure, Vs)
@@ -252,7 +281,7 @@ def run_shard(shard, tier, seed, acc):
                     for L in L_MENU:
                         check(S, S0, Rv, L, acc)
         # heterogeneous / non-int state objects: same oracle on a thinner slice of the menus
-        for naming in ('strings', 'mixed', 'tuples'):
+        for naming in ('strings', 'mixed', 'tuples', 'objects'):
             for S in S_MENU[::2]:
                 for S0 in S0_MENU[::3]:
                     for L in L_MENU[::2]:
